@@ -32,6 +32,7 @@ class Constraint:
     value: Any
     node: ast.AST
     value_text: str = ""
+    facts: frozenset = frozenset()  # (text, polarity) facts holding where the refusing test is evaluated
 
     def show(self) -> str:
         v = self.value if self.value is not UNKNOWN else self.value_text
@@ -116,8 +117,12 @@ def _cmp(ctx, fi, left, op, right, pol, node, env) -> list[Constraint]:
 
 def refusal_constraints(ctx: Ctx, fi: FuncInfo, accept_return: Iterable[str] = (), env=None) -> list[Constraint]:
     out = []
+    g = ctx.cfg(fi)
+    fx = g.facts()
     for test, pol, n in ctx.refusals(fi, accept_return):
-        out += atoms(ctx, fi, test, pol, env)
+        for c in atoms(ctx, fi, test, pol, env):
+            c.facts = fx.get(n.id, frozenset())
+            out.append(c)
     return out
 
 
